@@ -9,13 +9,12 @@ variable {α : Type}
 
 /-- why an unsuccessful run ends "loudly" -/
 def Loud (s : St α) : Prop :=
-  s.exitSt ≠ 0 ∨ s.userAbort = true ∨ ∃ m, (⟨.write m, .err EPIPE⟩ : Event) ∈ s.trace
+  s.exitSt ≠ 0 ∨ s.userAbort = true
 
 theorem Loud.frame {s s' : St α} (f : Frame s s') (h : Loud s) : Loud s' := by
-  rcases h with h | h | h
+  rcases h with h | h
   · exact Or.inl (f.exitMono h)
-  · exact Or.inr (Or.inl (by rw [f.userAbort]; exact h))
-  · exact Or.inr (Or.inr (by rw [f.trace]; exact h))
+  · exact Or.inr (by rw [f.userAbort]; exact h)
 
 /-- an error that must make the run fail: read/write/poll failing with something else than EINTR/EAGAIN, or a failing
     open / fstat(source) / fsync / close(target) / `--force` unlink (other than ENOENT) -/
@@ -77,7 +76,7 @@ theorem sad_nextMain (ops : List (Op α)) (s : St α) :
   | cons op r ih =>
     cases op <;> unfold nextMain
     · split
-      · rename_i h; exact fun _ _ => (sad_ioFail c s (Or.inr (Or.inl h))).1
+      · rename_i h; exact fun _ _ => (sad_ioFail c s (Or.inr h)).1
       · exact ih s
     · split
       · exact ih s
@@ -98,7 +97,7 @@ theorem sad_doInit (s : St α) : (doInit c s).pc.finBad = true → (doInit c s).
   split
   · exact fun _ _ => (sad_ioFail c _ (Or.inl (by simp [msgError]))).1
   · split
-    · rename_i h; exact fun _ _ => (sad_ioFail c { s with main := true, ops := c.ops } (Or.inr (Or.inl h))).1
+    · rename_i h; exact fun _ _ => (sad_ioFail c { s with main := true, ops := c.ops } (Or.inr h)).1
     · split
       · exact sad_nextMain c _ _
       · split
@@ -249,10 +248,9 @@ theorem q7_close {s s1 s' : St α} (q : Q7 s) (hfb : s.pc.finBad = true) (hncd :
     (hexit : s.exitSt ≠ 0 → s1.exitSt ≠ 0) (hua : s1.userAbort = s.userAbort)
     (hcase : (s1.success = s.success ∧ hardErr ev = false) ∨ (s1.success = false ∧ s1.exitSt ≠ 0)) : Q7 s' := by
   have loud1 : Loud s → Loud s1 := by
-    rintro (h | h | ⟨m, h⟩)
+    rintro (h | h)
     · exact Or.inl (hexit h)
-    · exact Or.inr (Or.inl (by rw [hua]; exact h))
-    · exact Or.inr (Or.inr ⟨m, by rw [ht]; exact List.mem_cons_of_mem _ h⟩)
+    · exact Or.inr (by rw [hua]; exact h)
   refine ⟨?_, ?_, fun h => by rw [hne] at h; simp at h, fun e => absurd e hn'⟩
   · intro _ hs
     rw [hsucc] at hs
